@@ -40,6 +40,12 @@ structure Inv (V : Key → Sig → Blob → Bool) (s : Identity) : Prop where
   accepted : ∀ id r, get? id s.revisions = some (some r) → r.state = .accepted → id ≠ s.root →
     ∃ pid p, r.parent = some pid ∧ get? pid s.revisions = some (some p) ∧ p.state = .accepted ∧
       MajoritySigned V p.doc r
+  /-- every head points to the id of a (possibly redacted) revision -/
+  headsLive : ∀ k id, get? k s.heads = some id → get? id s.revisions ≠ none
+
+theorem get?_ins_keeps {α : Type} {k k' : Nat} {v : α} {m : List (Nat × α)} (h : get? k m ≠ none) :
+    get? k (ins k' v m) ≠ none := by
+  rw [get?_ins]; split <;> simp_all
 
 theorem get?_map_snd {α β : Type} (f : α → β) (k : Nat) (m : List (Nat × α)) :
     get? k (m.map fun kv => (kv.1, f kv.2)) = (get? k m).map f := by
@@ -167,7 +173,17 @@ theorem adopt_inv {V : Key → Sig → Blob → Bool} {s s' : Identity} {cur r :
       have hne0 : id0 ≠ id := ne_of_states' h0 hr (by rw [hacc0, hact]; simp)
       rw [hget, if_neg hne0, h0]
       simp [voidActive_of_not_active (r := r0) (by rw [hacc0]; simp)]
-    refine ⟨⟨?_, inv.heads, ?_, ?_⟩, Or.inr ⟨cur, { r with state := .accepted }, hcur, ?_, hpar, hmajsigned⟩,
+    have hlive : ∀ k id0, get? k s.heads = some id0 →
+        get? id0 (adoptedRevisions s.revisions id r) ≠ none := by
+      intro k id0 hk
+      rw [hget]
+      split
+      · simp
+      · have := inv.headsLive k id0 hk
+        cases hx : get? id0 s.revisions with
+        | none => exact absurd hx this
+        | some x => simp
+    refine ⟨⟨?_, inv.heads, ?_, ?_, hlive⟩, Or.inr ⟨cur, { r with state := .accepted }, hcur, ?_, hpar, hmajsigned⟩,
       hstab, rfl, rfl⟩
     · exact ⟨{ r with state := .accepted }, by simp only [hget]; simp, rfl⟩
     · intro id2 r2 c2 hr2 hact2 _
@@ -263,7 +279,15 @@ theorem actAccept_step {V : Key → Sig → Blob → Bool} {s s' : Identity} {cu
               show get? s.current (ins id (some r') s.revisions) = _
               rw [get?_ins_ne _ _ (Ne.symm hidne)]; exact hcur
             have inv1 : Inv V s1 := by
-              refine ⟨⟨cur, hcur1, hca⟩, keys_ins_nodup inv.heads, ?_, ?_⟩
+              refine ⟨⟨cur, hcur1, hca⟩, keys_ins_nodup inv.heads, ?_, ?_, ?_⟩
+              rotate_left 2
+              · intro k id0 hk
+                have hk' : get? k (ins author id s.heads) = some id0 := hk
+                show get? id0 (ins id (some r') s.revisions) ≠ none
+                rw [get?_ins] at hk'
+                split at hk'
+                · cases hk'; rw [get?_ins_self]; simp
+                · exact get?_ins_keeps (inv.headsLive k id0 hk')
               · intro id2 r2 c2 hr2 hact2 hc2
                 rw [hcur1] at hc2; cases hc2
                 by_cases hid : id2 = id
@@ -331,7 +355,7 @@ theorem inv_update {V : Key → Sig → Blob → Bool} {s : Identity} {id : Id} 
   have hidne : id ≠ s.current := ne_of_states hr hcur (by rw [hact, hca]; simp)
   have hcur1 : get? s.current (ins id (some r') s.revisions) = some (some cur) := by
     rw [get?_ins_ne _ _ (Ne.symm hidne)]; exact hcur
-  refine ⟨⟨cur, hcur1, hca⟩, inv.heads, ?_, ?_⟩
+  refine ⟨⟨cur, hcur1, hca⟩, inv.heads, ?_, ?_, fun k id0 hk => get?_ins_keeps (inv.headsLive k id0 hk)⟩
   · intro id2 r2 c2 hr2 hact2 hc2
     rw [show get? s.current (ins id (some r') s.revisions) = some (some cur) from hcur1] at hc2; cases hc2
     by_cases hid : id2 = id
@@ -448,7 +472,8 @@ theorem actRedact_step {V : Key → Sig → Blob → Bool} {s s' : Identity} {au
           obtain ⟨cur, hcur, hca⟩ := inv.cur
           have hcur1 : get? s.current (ins id none s.revisions) = some (some cur) := by
             rw [get?_ins_ne _ _ (Ne.symm hidne)]; exact hcur
-          refine ⟨⟨⟨cur, hcur1, hca⟩, inv.heads, ?_, ?_⟩, Or.inl rfl, fun id0 r0 h0 hacc0 => ?_, rfl⟩
+          refine ⟨⟨⟨cur, hcur1, hca⟩, inv.heads, ?_, ?_, fun k id0 hk => get?_ins_keeps (inv.headsLive k id0 hk)⟩,
+            Or.inl rfl, fun id0 r0 h0 hacc0 => ?_, rfl⟩
           · intro id2 r2 c2 hr2 hact2 hc2
             rw [show get? s.current (ins id none s.revisions) = some (some cur) from hcur1] at hc2; cases hc2
             have hid : id2 ≠ id := by
@@ -506,7 +531,15 @@ theorem inv_new {V : Key → Sig → Blob → Bool} {s : Identity} {cur p : Revi
   have hold : ∀ id2, id2 ≠ entry →
       get? id2 (withNew s entry author (newRevision doc title st author pid sig)).revisions =
         get? id2 s.revisions := fun id2 hid => get?_ins_ne _ _ hid
-  refine ⟨⟨cur, hcur1, hca⟩, keys_ins_nodup inv.heads, ?_, ?_⟩
+  refine ⟨⟨cur, hcur1, hca⟩, keys_ins_nodup inv.heads, ?_, ?_, ?_⟩
+  rotate_left 2
+  · intro k id0 hk
+    have hk' : get? k (ins author entry s.heads) = some id0 := hk
+    show get? id0 (ins entry _ s.revisions) ≠ none
+    rw [get?_ins] at hk'
+    split at hk'
+    · cases hk'; rw [get?_ins_self]; simp
+    · exact get?_ins_keeps (inv.headsLive k id0 hk')
   · intro id2 r2 c2 hr2 hact2 hc2
     rw [show get? (withNew s entry author (newRevision doc title st author pid sig)).current _ = _ from hcur1] at hc2
     cases hc2
@@ -548,12 +581,22 @@ theorem inv_new {V : Key → Sig → Blob → Bool} {s : Identity} {cur p : Revi
       intro hh; subst hh; rw [hf.rev] at hp2; cases hp2
     exact ⟨pid2, p2, hp1, by rw [hold pid2 hpne]; exact hp2, hp3, hp4⟩
 
-/-- `Revision` arm (the op's id is fresh). -/
+/-- `Revision` arm (the arm itself rejects an id that is already a revision id; no head can point to an
+id that is not a revision id). -/
 theorem actRevision_step {V : Key → Sig → Blob → Bool} {s s' : Identity} {cur : Revision} {entry : Id}
     {author : Key} {title : Nat} {doc : Option IdDoc} {parent : Option Id} {sig : Sig} (inv : Inv V s)
-    (hcur : get? s.current s.revisions = some (some cur)) (hf : Fresh s entry)
+    (hcur : get? s.current s.revisions = some (some cur))
     (h : actRevision V s cur entry author title doc parent sig = .ok s') : Step V s s' := by
   unfold actRevision at h
+  split at h
+  · cases h
+  rename_i hnew0
+  have hf : Fresh s entry := by
+    have hnone : get? entry s.revisions = none := by
+      cases hx : get? entry s.revisions with
+      | none => rfl
+      | some v => simp [hx] at hnew0
+    exact ⟨hnone, fun k hk => inv.headsLive k entry hk hnone⟩
   split at h
   · cases h
   · rename_i doc
@@ -601,10 +644,9 @@ theorem actRevision_step {V : Key → Sig → Blob → Bool} {s s' : Identity} {
 
 /-- **Every successful action** preserves the invariant, moves `current` only to a child of the old
 current revision that a majority of the old document's delegates validly signed, and leaves the old
-current revision untouched. (`Fresh` is only needed for `Revision` actions.) -/
+current revision untouched. -/
 theorem action_step {V : Key → Sig → Blob → Bool} {s s' : Identity} {a : Action} {entry : Id} {author : Key}
-    (inv : Inv V s) (hf : (∃ t d p sg, a = .revision t d p sg) → Fresh s entry)
-    (h : action V s a entry author = .ok s') : Step V s s' := by
+    (inv : Inv V s) (h : action V s a entry author = .ok s') : Step V s s' := by
   unfold action at h
   split at h
   · cases h
@@ -623,7 +665,7 @@ theorem action_step {V : Key → Sig → Blob → Bool} {s s' : Identity} {a : A
       | revisionReject id => exact actReject_step inv h
       | revisionEdit id t => exact actEdit_step inv h
       | revisionRedact id => exact actRedact_step inv h
-      | revision t d p sg => exact actRevision_step inv hcur (hf ⟨t, d, p, sg, rfl⟩) h
+      | revision t d p sg => exact actRevision_step inv hcur h
 
 /-- An action by a key that is not a delegate of the current document fails with `UnexpectedState`
 (or panics if there is no current revision): it never produces a state. -/
